@@ -8,6 +8,8 @@ from harness import ws_common as W
 ID = "C04"
 TITLE = "Re-keying, moving and cloning carry all data and never clobber another job"
 LEAN_MODULE = "Signac.Properties.C04"
+# the refinement layer: event-free runs of the lifecycle step programs implement the abstract workspace operations
+EXTRA_MODULES = ["Signac.Properties.Refinement"]
 DRIVER = "drv_ws"
 DESIGN_REF = "DESIGN.md §4 C04"
 RULE = ("(old state point, edit) pairs over the C03 universe (4 keys x {0,1,'x'} and rich values 1.0/True/None/list/"
@@ -32,7 +34,12 @@ LEVEL_TEXT = ("Proved in Lean for every world, handle, payload and hash function
               "move keeps id and payload; clone copies and leaves the source project unchanged. The model is run in lock "
               "step with the real signac on generated edit scenarios (result kind, both workspaces, all live handles "
               "compared after every step), and an independent plain reference model judges the real code directly.")
-LEVEL_NOTE = ("Trusted: Lean kernel + 3 standard axioms; the correspondence harness and the plain reference model "
+LEVEL_NOTE = ("Refinement layer (Signac/Properties/Refinement.lean, audited with this check): for every clean world an EVENT-FREE run of "
+              "the file-system step program of init / re-key / move / clone / remove / clear ends in a clean world whose "
+              "abstraction is the abstract operation's result (op_refines, history_refines by induction over histories), and "
+              "commutes with the step of the abstract workspace model of C03/C04 (init_square ... clear_square): the crash/fault "
+              "model of C11 and the in-memory model of C03/C04 describe the same operations. "
+              "Trusted: Lean kernel + 3 standard axioms; the correspondence harness and the plain reference model "
               "(harness/ws_common.py). The model works at the level of whole operations (no file-system steps: C11). "
               "Known findings carved out exactly: F-4b (type-only / None whole-assignment ignored by the dependency), "
               "F-3c (pickle of a handle that has a shallow copy), F-3d (assignment through a handle whose job was re-keyed "
